@@ -565,10 +565,11 @@ func splitGopkgIn(path string) (prefix, pathMajor string, ok bool) {
 	if strings.HasSuffix(path, "-unstable") {
 		i -= len("-unstable")
 	}
+	end := i
 	for i > 0 && ('0' <= path[i-1] && path[i-1] <= '9') {
 		i--
 	}
-	if i <= 1 || path[i-1] != 'v' || path[i-2] != '.' {
+	if i <= 1 || i == end || path[i-1] != 'v' || path[i-2] != '.' {
 		// All gopkg.in paths must end in vN for some N.
 		return path, "", false
 	}
